@@ -443,7 +443,8 @@ def _w_solve(case, ctx, rng):
         ctx.check(abs(fM - float(np.nanmin(trace))) <= 1e-12 * max(1.0, abs(fM)) or len(trace) != len(want_trace), op, "NOT-MIN-OF-TRACE",
                   f"returned model estimate {fM!r} vs min of the reported trace {float(np.nanmin(trace))!r}")
     ctx.check(all(bool((f >= lb).all()) for f in M.factor_matrices), op, "BOUND", f"factor entry below the lower bound {lb}")
-    ctx.check(info["n_epoch"] + 1 == len(epoch_vals) or len(epoch_vals) == 0, op, "WRONG-TRACE", f"n_epoch {info['n_epoch']} vs {len(epoch_vals)} completed epochs", what="n_epoch")
+    # (info["n_epoch"] is not judged: the property speaks of the trace - start plus one value per completed epoch - not of how a
+    # counter beside it is numbered)
 
 
 def _running_best(f0, vals):
